@@ -207,11 +207,28 @@ def LState.onSyncFinished (s : LState) (ns peer : Bytes) (origin : Nat) (res : O
                  (res.map fun (r, st, _) => (r, st)) resync
       (r.1, s.finishedOuts ns peer res ++ r.2)
 
+/-- `on_download_ready`, per document whose last queued hash has just completed: `PendingContentReady`
+if a finished sync is waiting for it (`may_emit_ready`, which clears the flag) -/
+def emitReady (acc : LState × List Out) (n : Bytes) : LState × List Out :=
+  match acc.1.doc? n with
+  | some d =>
+    if d.mayEmit then
+      let r := (acc.1.updDoc n (fun d => { d with mayEmit := false })).send n .pendingContentReady
+      (r.1, acc.2 ++ r.2)
+    else acc
+  | none => acc
+
+/-- `join_peers`: every known peer is dialled (`DirectJoin`) -/
+def dialKnown (ns : Bytes) (acc : LState × List Out) (p : Bytes) : LState × List Out :=
+  ((acc.1.syncWithPeer ns p 0).1, acc.2 ++ (acc.1.syncWithPeer ns p 0).2)
+
 inductive In where
   /-- `start_sync(ns, [])`: `openOk` = the store actor opened the replica; `known` = the useful peers
   the store remembers for the document -/
   | startSync (ns : Bytes) (openOk : Bool) (known : List Bytes)
-  | leave (ns : Bytes) (kill : Bool)
+  /-- `leave`; `storeOk` = the store actor's `set_sync(false)`, `unsubscribe`, `close` all succeed (they fail
+  when the replica is no longer open there) -/
+  | leave (ns : Bytes) (kill : Bool) (storeOk : Bool)
   | subscribe (ns : Bytes) (chan : Nat)
   /-- the receiving end of a subscriber channel goes away -/
   | dropChan (chan : Nat)
@@ -239,15 +256,17 @@ def step (s : LState) : In → LState × List Out
       let s := if s.syncing ns then s else { s with docs := s.docs ++ [{ ns }] }
       -- `join_peers`: the topic is joined, then every known peer is dialled
       let s := { s with topics := insertSet s.topics ns }
-      let (s, outs) := known.foldl (fun (acc : LState × List Out) p =>
-        let (s', o) := acc.1.syncWithPeer ns p 0
-        (s', acc.2 ++ o)) (s, [])
-      (s, outs ++ [.reply true])
-  | .leave ns kill =>
-    let s := if s.syncing ns then
-      { s with docs := s.docs.filter (·.ns != ns), topics := s.topics.filter (· != ns) } else s
-    let s := if kill then { s with subs := s.subs.filter (·.1 != ns) } else s
-    (s, [.reply true])
+      let r := known.foldl (dialKnown ns) (s, [])
+      (r.1, r.2 ++ [.reply true])
+  | .leave ns kill storeOk =>
+    if s.syncing ns then
+      -- `state.remove` comes first; then `set_sync(false)?`, `unsubscribe?`, `close?`, then `gossip.quit`
+      let s := { s with docs := s.docs.filter (·.ns != ns) }
+      if storeOk then
+        let s := { s with topics := s.topics.filter (· != ns) }
+        (if kill then { s with subs := s.subs.filter (·.1 != ns) } else s, [.reply true])
+      else (s, [.reply false])
+    else (if kill then { s with subs := s.subs.filter (·.1 != ns) } else s, [.reply true])
   | .subscribe ns chan =>
     let cur := (s.subs.lookup ns).getD []
     ({ s with subs := if (s.subs.lookup ns).isSome
@@ -274,15 +293,7 @@ def step (s : LState) : In → LState × List Out
         let (s, o) := s.send ns (.contentReady hash)
         (s, o ++ s.bcastNeighbors ns (Codec.encGOp (.contentReady hash)))
       else ({ s with missing := insertSet s.missing hash }, [])
-    completed.foldl (fun (acc : LState × List Out) n =>
-      match acc.1.doc? n with
-      | some d =>
-        if d.mayEmit then
-          let s' := acc.1.updDoc n (fun d => { d with mayEmit := false })
-          let (s'', o) := s'.send n .pendingContentReady
-          (s'', acc.2 ++ o)
-        else acc
-      | none => acc) (s, o1)
+    completed.foldl emitReady (s, o1)
   | .contentReady ns node hash blobComplete => s.startDownload ns hash node true blobComplete
   | .syncReport from_ ns heads ours =>
     if !s.syncing ns then (s, [])
